@@ -309,13 +309,24 @@ def exec_spans_history(ctx, ops, case, look=1, report=True, per_step=False):
                         s2 = s & other
                         ref = ref & oref
                     elif kind == "iadd":
+                        alias = s            # the same object under a second name
                         s2 = s
                         s2 += other
                         ref = ref | oref
                     else:
+                        alias = s
                         s2 = s
                         s2 -= other
                         ref = ref - oref
+                    if kind in ("iadd", "isub"):
+                        # a set of integers is updated in place by += / -=: whoever holds the object
+                        # under another name sees the change (b = a; b -= t  =>  a is b, a == b)
+                        seen = list(alias)
+                        if s2 is not alias or seen != runs_of(ref):
+                            fail("spans-inplace-op-not-in-place:" + kind,
+                                 "after `b = a; b %s= Spans(%r)` %s; a (the other name of the object) holds %r, b holds %r, a set updated in place holds %r"
+                                 % ("+" if kind == "iadd" else "-", list(op[1]), "b is a" if s2 is alias else "b is no longer a", seen, list(s2), runs_of(ref)),
+                                 step, expected=runs_of(ref), observed=seen)
                     if kind in ("union", "diff", "inter"):
                         if before is not None and list(s) != before:
                             fail("spans-binary-op-mutates-left-operand", "left operand changed from %r to %r" % (before, list(s)), step)
